@@ -534,3 +534,24 @@ Fixpoint unpack_bytes (n : Z) (ws : list int) : list Z :=
   | [] => []
   | w :: t => if n <=? 7 then unpack_word (Z.to_nat n) w else unpack_word 7 w ++ unpack_bytes (n - 7) t
   end.
+
+(** comparison of a model value with what the implementation decoded, for arbitrary inputs: the
+    bound of a compressed loop is compared only where the model says it came from the bytes *)
+Definition cloop_matches (m g : cloop) : bool :=
+  list_eqb point_eqb (cl_vertices m) (cl_vertices g) && Bool.eqb (cl_origin_inside m) (cl_origin_inside g)
+  && (cl_depth m =? cl_depth g)
+  && match cl_bound m with Some r => opt_eqb rect_eqb (Some r) (cl_bound g) | None => true end.
+Definition dpolygon_matches (m g : dpolygon) : bool :=
+  match m, g with
+  | DLossless p, DLossless q => polygon_eqb p q
+  | DCompressed x, DCompressed y => list_eqb cloop_matches x y
+  | _, _ => false
+  end.
+
+(** * Queries on a decoded Cell (s2/cell.go, s2/stuv.go) *)
+(** Cell.RectBound -> uAxis(face) -> faceUVWAxes[face]: a table of NumFaces rows, indexed by
+    the face of the id (its top three bits) *)
+Definition cellid_face (id : Z) : Z := Z.shiftr id 61.
+Definition cell_rect_bound_axes (id : Z) : result Z :=
+  let f := cellid_face id in
+  if (f <? 0) || (s2_NumFaces <=? f) then Panic else Ok f.
